@@ -631,7 +631,9 @@ class _Inliner(object):
 
         def helper_call(e):
             e0 = strip_casts(e)
-            if e0.get('k') == 'call' and callee_name(e0) in cands and all(_side_effect_free(a) for a in e0.get('args', [])):
+            # (one argument may have effects - f(a, &tail, cJSON_CreateNumber(x)): it is bound to a local first, the others do not care)
+            if e0.get('k') == 'call' and callee_name(e0) in cands and \
+                    sum(1 for a in e0.get('args', []) if not _side_effect_free(a)) <= 1:
                 return e0
             return None
         if k == 'return' and 'e' in stmt:
